@@ -431,6 +431,35 @@ pub fn main_with(table: &[(&str, Runner)]) {
          }
          writeln!(out, "END {} {}", i, job.id).unwrap();
          out.flush().unwrap();
+      } else if job.param_usize("shared_pool", 0) > 0 {
+         // all jobs of the group are tasks of ONE rayon pool: every instance's run() executes on a worker of that pool, and a
+         // worker that waits for a stolen sub-job of one instance may pick up and run another instance nested on its stack
+         writeln!(out, "BEGIN {} {}", i, job.id).unwrap();
+         out.flush().unwrap();
+         let pool = rayon::ThreadPoolBuilder::new().num_threads(job.param_usize("shared_pool", 0)).build().expect("shared pool");
+         let bufs: Vec<Vec<u8>> = pool.install(|| {
+            use rayon::prelude::*;
+            (i..j)
+               .into_par_iter()
+               .map(|k| {
+                  let job = &jobs[k];
+                  let mut buf: Vec<u8> = vec![];
+                  match map.get(job.prog.as_str()).cloned() {
+                     None => writeln!(buf, "NOPROG {}", job.prog).unwrap(),
+                     Some(r) => r(job, &mut buf),
+                  }
+                  buf
+               })
+               .collect()
+         });
+         for (k, buf) in (i..j).zip(bufs) {
+            if k != i {
+               writeln!(out, "BEGIN {} {}", k, jobs[k].id).unwrap();
+            }
+            out.write_all(&buf).unwrap();
+            writeln!(out, "END {} {}", k, jobs[k].id).unwrap();
+         }
+         out.flush().unwrap();
       } else {
          // all jobs of the group start together on separate OS threads
          writeln!(out, "BEGIN {} {}", i, job.id).unwrap();
